@@ -426,6 +426,13 @@ class Interp:
                 return ('hook', e.id)
             if e.id in h.module.funcs:
                 return Closure(h.module.funcs[e.id].node, {}, None, None)
+            if getattr(h, 'native_regex', False) and not hasattr(h.module, 'mods'):
+                node_ = h.module.const_nodes.get('', {}).get(e.id)
+                if isinstance(node_, ast.Call) and norm(node_.func) == 're.compile':
+                    try:
+                        return ('regex', e.id, h.module.fold(node_.args[0], ''), h.module.fold(node_.args[1], '') if len(node_.args) > 1 else 0)
+                    except Exception:      # pylint: disable=broad-except
+                        pass
             if e.id in h.module.consts.get('', {}) and isinstance(h.module.consts[''][e.id], (str, bytes, int, tuple, list, frozenset)):
                 v = h.module.consts[''][e.id]
                 if isinstance(v, bytes) and getattr(h, 'symbolic_strings', False):
@@ -555,6 +562,19 @@ class Interp:
                 if all(self.truth(self.ev(c, env2, cls)) for c in g.ifs):
                     out.append(self.ev(e.elt, env2, cls))
             return out if isinstance(e, ast.GeneratorExp) else h.new_list(out)
+        if isinstance(e, (ast.DictComp, ast.SetComp)) and len(e.generators) == 1:
+            g = e.generators[0]
+            env2 = dict(env)
+            out_d = h.new_dict() if isinstance(e, ast.DictComp) else None
+            out_s = []
+            for v in self.seq(self.ev(g.iter, env, cls)):
+                self.assign(g.target, v, env2, cls)
+                if all(self.truth(self.ev(c, env2, cls)) for c in g.ifs):
+                    if isinstance(e, ast.DictComp):
+                        h.dict_set(out_d, self.ev(e.key, env2, cls), self.ev(e.value, env2, cls))
+                    else:
+                        out_s.append(self.ev(e.elt, env2, cls))
+            return out_d if isinstance(e, ast.DictComp) else set(out_s)
         if isinstance(e, ast.Subscript):
             base = self.ev(e.value, env, cls)
             key = self.ev(e.slice, env, cls)
@@ -754,6 +774,28 @@ class Interp:
             return args[0]
         if isinstance(fn, ast.Name) and fn.id == 'len' and len(args) == 1 and (h.is_list(args[0]) or isinstance(args[0], (list, tuple))):
             return len(h.items(args[0])) if h.is_list(args[0]) else len(args[0])
+        if isinstance(fn, ast.Attribute) and fn.attr in ('items', 'keys', 'values') and not args:
+            b_ = self.ev(fn.value, env, cls)
+            if isinstance(b_, Ref) and h.objs[b_.name]['__class__'] == 'dict':
+                ent = h.objs[b_.name]['entries']
+                return [(k, v) for k, v in ent] if fn.attr == 'items' else [k for k, _ in ent] if fn.attr == 'keys' else [v for _, v in ent]
+        if isinstance(fn, ast.Name) and fn.id == 'filter' and len(args) == 2 and 'filter' not in env:
+            return [x for x in self.seq(args[1]) if (self.truth(self.apply(args[0], [x])) if args[0] is not None else self.truth(x))]
+        if isinstance(fn, ast.Attribute) and getattr(h, 'native_regex', False):
+            import re as _re
+            b_ = None
+            try:
+                b_ = self.ev(fn.value, env, cls)
+            except AnalysisError:
+                b_ = None
+            if isinstance(b_, (_re.Match, _re.Pattern)) and all(isinstance(a, (str, int, bytes)) or a is None for a in args):
+                r_ = getattr(b_, fn.attr)(*args, **kwargs)
+                return h.new_list(r_) if isinstance(r_, list) else r_
+            if isinstance(b_, tuple) and b_ and b_[0] == 'regex' and all(isinstance(a, (str, int)) for a in args) and fn.attr in ('match', 'search', 'fullmatch', 'sub', 'split', 'findall'):
+                r_ = getattr(_re.compile(b_[2], b_[3]), fn.attr)(*args, **kwargs)
+                return h.new_list(r_) if isinstance(r_, list) else r_
+        if norm(fn) == 're.compile' and getattr(h, 'native_regex', False) and all(isinstance(a, (str, int)) for a in args):
+            return ('regex', 'local', args[0], args[1] if len(args) > 1 else kwargs.get('flags', 0))
         if isinstance(fn, ast.Name) and fn.id == 'map' and len(args) == 2 and 'map' not in env:
             return [self.apply(args[0], [x]) for x in self.seq(args[1])]
         if isinstance(fn, ast.Name) and fn.id == 'enumerate' and len(args) == 1:
@@ -1080,6 +1122,14 @@ class Interp:
         if isinstance(st, ast.AugAssign):
             cur = self.ev(st.target, env, cls)
             d = self.ev(st.value, env, cls)
+            if isinstance(st.op, (ast.BitOr, ast.BitAnd, ast.Sub)) and isinstance(cur, set) and isinstance(d, (set, frozenset)):
+                if isinstance(st.op, ast.BitOr):
+                    cur |= d            # in place: the same set object (aliases see the change)
+                elif isinstance(st.op, ast.BitAnd):
+                    cur &= d
+                else:
+                    cur -= d
+                return None
             if isinstance(st.op, ast.Add) and isinstance(cur, (str, SStr)) and isinstance(d, (str, SStr)):
                 self.assign(st.target, symstr.lift(cur) + symstr.lift(d) if (isinstance(cur, SStr) or isinstance(d, SStr)) else cur + d, env, cls)
                 return None
